@@ -1,6 +1,7 @@
 (* C07 — No lost update between concurrent snapshot transactions (first committer wins). *)
 From Coq Require Import List NArith Bool.
 From FsDb Require Import VList Core Spec CoreInv Refine SpecProps Conc07.
+From FsDb Require LockSkel LockSkelGen LockSkelCheck.
 Import ListNotations.
 Open Scope N_scope.
 
@@ -61,7 +62,26 @@ Example C07_nonvacuous :
               OutUnit; OutUnit; OutUnit; OutErr ETxSerialization; OutVal 11; OutVal 13].
 Proof. vm_compute. repeat split. Qed.
 
+(* ---- tie of the step granularity to the source: the lock/effect skeleton of internal/usecase/core, regenerated
+   from the Go source on every run (harness/lockskel.go -> LockSkelGen.v), satisfies the discipline of LockSkel.v *)
+Theorem C07_lock_skeleton_ok :
+  LockSkel.skeleton_ok LockSkelGen.skeleton = true /\ LockSkel.covers LockSkelGen.skeleton = true.
+Proof. split; [exact LockSkelCheck.fsdb_skeleton_ok | exact LockSkelCheck.fsdb_skeleton_covers]. Qed.
+
+(* what [path_ok] buys: a store that an operation enters at most once and needs at two of its events is held without
+   interruption between them - the events are in ONE critical section (for UpdateTx and the committed store: the conflict
+   test, the commit numbers, the records and the publication; for Store: number, record and both list appends) *)
+Theorem C07_one_critical_section :
+  forall r l p1 e1 p2 e2 p3 hend,
+    LockSkel.run r [] (p1 ++ e1 :: p2 ++ e2 :: p3) = Some hend ->
+    (LockSkel.count_acq l (p1 ++ e1 :: p2 ++ e2 :: p3) <= 1)%nat ->
+    In l (LockSkel.r_need r e1) -> In l (LockSkel.r_need r e2) ->
+    forall q1 w q2, p2 = q1 ++ LockSkel.Rel l w :: q2 -> False.
+Proof. exact LockSkel.one_critical_section. Qed.
+
 Print Assumptions C07_first_committer_wins.
 Print Assumptions C07_loser_invisible.
 Print Assumptions C07_model_commit_is_spec_commit.
 Print Assumptions C07_first_committer_wins_refuted_orig.
+Print Assumptions C07_lock_skeleton_ok.
+Print Assumptions C07_one_critical_section.
